@@ -189,7 +189,7 @@ Definition out_eqb (tol : Q) (a b : out) : bool :=
   match a, b with
   | OutNone, OutNone => true
   | OutU UInf, OutU UInf => true
-  | OutU (UFin x), OutU (UFin y) => Qle_bool (Qabs (x - y)) (tol * Qabs y)
-  | OutV x, OutV y => Qle_bool (Qabs (x - y)) (tol * Qabs y)
+  | OutU (UFin x), OutU (UFin y) => Qle_bool (Qabs (x - y)) (tol * (1 + Qabs y))
+  | OutV x, OutV y => Qle_bool (Qabs (x - y)) (tol * (1 + Qabs y))
   | _, _ => false
   end.
